@@ -3,13 +3,18 @@ package node
 import (
 	"errors"
 	"fmt"
+	"io"
+	"net"
+	"os"
 	"strings"
+	"syscall"
 	"testing"
 	"time"
 
 	gomavlib "github.com/bluenviron/gomavlib/v3"
 	"github.com/bluenviron/gomavlib/v3/pkg/dialects/ardupilotmega"
 	"github.com/bluenviron/gomavlib/v3/pkg/dialects/common"
+	"github.com/bluenviron/gomavlib/v3/pkg/dialects/minimal"
 	"github.com/bluenviron/gomavlib/v3/pkg/frame"
 	"github.com/bluenviron/gomavlib/v3/pkg/message"
 	"pgregory.net/rapid"
@@ -95,7 +100,8 @@ func runC13Stall(nch, victim, n1, n2, n3, incoming int, mode string) error {
 		pipes[i] = sim.NewPipe()
 		endpoints = append(endpoints, gomavlib.EndpointCustom{ReadWriteCloser: pipes[i]})
 	}
-	n := &gomavlib.Node{Endpoints: endpoints, Dialect: ardupilotmega.Dialect, OutVersion: gomavlib.V2, OutSystemID: nodeSys, HeartbeatDisable: true}
+	n := &gomavlib.Node{Endpoints: endpoints, Dialect: ardupilotmega.Dialect, OutVersion: gomavlib.V2, OutSystemID: nodeSys, HeartbeatDisable: true,
+		StreamRequestEnable: true}
 	if err := initNode(&n); err != nil {
 		return fmt.Errorf("BROKEN: %v", err)
 	}
@@ -210,6 +216,34 @@ func runC13Stall(nch, victim, n1, n2, n3, incoming int, mode string) error {
 	}
 	if got := pipes[victim].NumWrites(); got != n1 {
 		return fmt.Errorf("BROKEN: victim accepted writes while gated (%d vs %d)", got, n1)
+	}
+	// the blocked channel's own read side is healthy: what arrives on it (an ArduPilot heartbeat that makes the node
+	// want to answer on this very channel, and two other frames) must surface as events although its backlog is full
+	{
+		before := 0
+		for _, r := range rec.Snapshot() {
+			if _, ok := r.Ev.(*gomavlib.EventFrame); ok {
+				before++
+			}
+		}
+		hbl := lay(0)
+		hb := ref.Frame{V2: true, Seq: 1, Sys: 77, Comp: byte(1 + n2%200), ID: 0}
+		hb.Payload = hbl.Encode(&minimal.MessageHeartbeat{Type: 2, Autopilot: 3, SystemStatus: 4, MavlinkVersion: 3}, true)
+		hb.Checksum = hb.ChecksumFor(hbl.CRCExtra)
+		pipes[victim].Feed(tagged(byte(victim+1), 9000, "debug", true, nil, 0).Bytes())
+		pipes[victim].Feed(hb.Bytes())
+		pipes[victim].Feed(tagged(byte(victim+1), 9001, "debug", true, nil, 0).Bytes())
+		if !rec.WaitFor(bound, func(recs []sim.Rec) bool {
+			k := 0
+			for _, r := range recs {
+				if _, ok := r.Ev.(*gomavlib.EventFrame); ok {
+					k++
+				}
+			}
+			return k >= before+3
+		}) {
+			return fmt.Errorf("three frames arrived on channel %d (one of them an ArduPilot heartbeat, stream requests enabled) while its transport accepts no writes and its backlog is full: their events did not surface within %v; a channel that cannot write must not hold back event delivery", victim, bound)
+		}
 	}
 	// phase 3: unblock, let the backlog drain, then write more with flow control
 	pipes[victim].UnblockWrites()
@@ -338,6 +372,20 @@ func frameCounters(p *sim.Pipe) ([]int, error) { return rawCounters(p) }
 
 var errInjectedWrite = errors.New("injected transport write error")
 
+// injectedWriteError varies the kind of error a transport write fails with: a plain error, a timeout (what a write
+// deadline produces), a broken pipe, a short write.
+func injectedWriteError(k int) error {
+	switch k % 4 {
+	case 1:
+		return &net.OpError{Op: "write", Net: "tcp", Err: os.ErrDeadlineExceeded}
+	case 2:
+		return &net.OpError{Op: "write", Net: "tcp", Err: syscall.EPIPE}
+	case 3:
+		return io.ErrShortWrite
+	}
+	return errInjectedWrite
+}
+
 func TestC13WriteFailure(t *testing.T) {
 	rec := evid.New(t, "C13", "2..4 channels; after a warm-up a write fails on one channel - the transport returns an error at a generated call, or an item that cannot be encoded for the link is written (raw message with an id outside the dialect, raw message on a dialect-less node, message id > 255 on a v1 node) at a generated position - then valid items follow; within the bound each affected channel must either be reported closed or deliver a later valid item; healthy channels keep receiving everything; non-trivial = later valid writes follow the failure; distinct by hash of the parameters")
 	rec.Require("transport-error", "raw-outside-dialect", "id>255-on-v1", "raw-on-dialectless")
@@ -409,10 +457,16 @@ func runC13Failure(nch int, kind string, victim, before, after, repeat int) erro
 		}
 	}
 	affected := map[int]bool{}
+	// in half of the scenarios the victim's transport is slow and the valid items follow without a pause, so that
+	// items are queued behind the one that fails
+	backlog := (before+after)%2 == 1
+	if backlog {
+		pipes[victim].SetWriteDelay(400 * time.Microsecond)
+	}
 	for r := 0; r < repeat; r++ {
 		switch kind {
 		case "transport-error":
-			pipes[victim].FailNextWrite(errInjectedWrite)
+			pipes[victim].FailNextWrite(injectedWriteError(r + before + after))
 			affected[victim] = true
 			if err := valid(); err != nil { // this one hits the failing call on the victim
 				return fmt.Errorf("valid write refused: %v", err)
@@ -451,7 +505,9 @@ func runC13Failure(nch int, kind string, victim, before, after, repeat int) erro
 		if err := valid(); err != nil {
 			return fmt.Errorf("valid write refused: %v", err)
 		}
-		time.Sleep(200 * time.Microsecond)
+		if !backlog {
+			time.Sleep(200 * time.Microsecond)
+		}
 	}
 	// each channel: either a close event, or a later valid item delivered
 	deadline := time.Now().Add(bound)
@@ -498,6 +554,25 @@ func runC13Failure(nch int, kind string, victim, before, after, repeat int) erro
 				return fmt.Errorf("channel %d: after a failed write (%s) the channel was neither reported closed nor did it deliver any of the %d valid items written afterwards within %v: it stays open and discards everything (events: %s)", i, kind, after, bound, strings.TrimSpace(renderEvents(rec.Snapshot(), nil)))
 			}
 			time.Sleep(2 * time.Millisecond)
+		}
+	}
+	// whatever the failure was, nothing may reappear later or overtake: every stream stays in submission order
+	time.Sleep(5 * time.Millisecond)
+	for i, p := range pipes {
+		var cs []int
+		var err error
+		if n.Dialect == nil {
+			cs, err = rawCounters(p)
+		} else {
+			cs, err = counters(p)
+		}
+		if err != nil {
+			return fmt.Errorf("channel %d: %v", i, err)
+		}
+		for k := 1; k < len(cs); k++ {
+			if cs[k] <= cs[k-1] {
+				return fmt.Errorf("channel %d after a failed write (%s): item %d is on the wire after item %d (an item reappeared or overtook others): %v", i, kind, cs[k], cs[k-1], cs)
+			}
 		}
 	}
 	return nil
